@@ -10,7 +10,7 @@ ROOT=$(cd "$(dirname "$0")/.." && pwd)
 TAG=$(echo "$REPO" | md5sum | cut -c1-8)
 B=$ROOT/build/$V-$TAG
 case $V in
-  asan)  CF="-O1 -g -fno-omit-frame-pointer -fsanitize=address,bounds,null -fno-sanitize-recover=bounds,null -DLIBSNDFILE_VERIF=1" ;;
+  asan)  CF="-O1 -g -fno-omit-frame-pointer -fsanitize=address,bounds,null -fsanitize-recover=bounds,null -DLIBSNDFILE_VERIF=1" ;;
   nosse) CF="-O2 -g -U__SSE2__ -mno-sse2 -mfpmath=387 -DLIBSNDFILE_VERIF=1" ;;
   fast)  CF="-O2 -g -DLIBSNDFILE_VERIF=1" ;;
   *) echo "unknown variant $V" >&2 ; exit 2 ;;
